@@ -35,7 +35,8 @@ int sm2_ecdh(const SM2_KEY *key, const uint8_t *peer_public, size_t peer_public_
 		error_print();
 		return -1;
 	}
-	if (sm2_z256_point_from_octets(&point, peer_public, peer_public_len) != 1) {
+	if (sm2_z256_point_from_octets(&point, peer_public, peer_public_len) != 1
+		|| sm2_z256_point_is_at_infinity(&point)) {
 		error_print();
 		return -1;
 	}
